@@ -69,6 +69,7 @@ OUTSIDE = {
     'root2/a': b'other-root',
 }
 MTIME = 1_600_000_000
+MTIME2 = 1_609_815_845       # Tue, 05 Jan 2021 03:04:05 GMT: every numeric field has one digit
 
 
 # sub-second parts of the files' modification times (ns): none, tiny, below/at/above one half,
@@ -98,7 +99,7 @@ def build_tree():
         os.makedirs(os.path.dirname(p), exist_ok=True)
         with open(p, 'wb') as fh:
             fh.write(data)
-        ns = (MTIME + i * 7) * 10 ** 9 + FRACTIONS_NS[i % len(FRACTIONS_NS)]
+        ns = ((MTIME2 + i // 2 if i % 2 else MTIME + i * 7)) * 10 ** 9 + FRACTIONS_NS[i % len(FRACTIONS_NS)]
         os.utime(p, ns=(ns, ns))
         listing[p] = entry(p, data)
     for rel, data in OUTSIDE.items():
@@ -529,6 +530,16 @@ def requests_corr(ctx, falcon, testing, model, base, root, listing, quick):
             rel = p[len(root) + 1:]
             for k, dt in enumerate((-1, 0, 1)):
                 cases.append((0, encode_url('/static/' + rel, rng), None, v[1] + dt, ('wsgi', 'asgi', 'direct')[k]))
+                # the same second in every spelling the lenient date reader accepts
+                for j, cls in enumerate(SPELLINGS):
+                    text = spell(v[1] + dt, cls)
+                    if ims_class(text) != ('date', v[1] + dt):
+                        ctx.violation('correspondence-broken',
+                                      {'broken': 'C16.date_spelling', 'text': text, 'class': cls, 'intended': v[1] + dt,
+                                       'read_as': list(ims_class(text))}, found_input=False, key='date-spelling')
+                        continue
+                    ctx.count('ims-spelling-' + cls)
+                    cases.append((0, encode_url('/static/' + rel, rng), None, text, ('wsgi', 'asgi', 'direct')[(k + j) % 3]))
     run_cases(ctx, falcon, testing, model, configs, one, cases, listing, files_wire, base, root)
     # OPTIONS
     st, hd, body, opened = one(0, '/static/a', None, None, 'wsgi', method='OPTIONS')
@@ -543,10 +554,62 @@ BAD_DATES = ['yesterday', 'Thu, 99 Foo 2020 25:61:61 GMT', '1600000000', 'Sun, 1
 BAD_RANGES = ['bytes=x-y', 'bytes', 'bytes=5-2', 'bytes=0-0,2-3']
 
 
-def wire_ims(ims):
+DAYS = ['Mon', 'Tue', 'Wed', 'Thu', 'Fri', 'Sat', 'Sun']
+MONTHS = ['Jan', 'Feb', 'Mar', 'Apr', 'May', 'Jun', 'Jul', 'Aug', 'Sep', 'Oct', 'Nov', 'Dec']
+SPELLINGS = ['canonical', 'one-digit', 'lower', 'upper', 'mixed-case', 'double-blank', 'tab', 'wrong-weekday',
+             'gmt-lower', 'everything']
+IMS_CACHE = {}
+
+
+def spell(t, cls):
+    """The second [t] as an If-Modified-Since value in one of the spellings falcon's lenient
+    reader (datetime.strptime with '%a, %d %b %Y %H:%M:%S GMT') accepts."""
+    d = datetime.datetime.fromtimestamp(t, datetime.timezone.utc)
+    day, mon = DAYS[d.weekday()], MONTHS[d.month - 1]
+    num = '%02d'
+    sep, gmt = ' ', 'GMT'
+    if cls in ('one-digit', 'everything'):
+        num = '%d'
+    if cls == 'lower':
+        day, mon = day.lower(), mon.lower()
+    if cls == 'upper':
+        day, mon = day.upper(), mon.upper()
+    if cls in ('mixed-case', 'everything'):
+        day, mon = day[0].lower() + day[1:].upper(), mon[:2].upper() + mon[2:]
+    if cls in ('double-blank', 'everything'):
+        sep = '  '
+    if cls == 'tab':
+        sep = '\t'
+    if cls in ('wrong-weekday', 'everything'):
+        day = DAYS[(d.weekday() + 3) % 7] if cls == 'wrong-weekday' else day
+    if cls in ('gmt-lower', 'everything'):
+        gmt = 'gmt' if cls == 'gmt-lower' else 'Gmt'
+    return ('%s,' + sep + num + sep + '%s' + sep + '%04d' + sep + num + ':' + num + ':' + num + sep + '%s') % (
+        day, d.day, mon, d.year, d.hour, d.minute, d.second, gmt)
+
+
+def ims_class(ims):
+    """None | ('date', seconds) | ('bad',): an int is rendered canonically by the harness; a str is
+    sent verbatim and read the way the framework's own date reader (falcon.util.http_date_to_dt,
+    property C09) reads it."""
     if ims is None:
+        return None
+    if isinstance(ims, int):
+        return ('date', ims)
+    if ims not in IMS_CACHE:
+        import falcon
+        try:
+            IMS_CACHE[ims] = ('date', int(falcon.util.http_date_to_dt(ims).timestamp()))
+        except ValueError:
+            IMS_CACHE[ims] = ('bad',)
+    return IMS_CACHE[ims]
+
+
+def wire_ims(ims):
+    c = ims_class(ims)
+    if c is None:
         return []
-    return [1] if isinstance(ims, str) else [2, ims]
+    return [1] if c[0] == 'bad' else [2, c[1]]
 
 
 # requests that must be 404 whatever else they carry: every class of rejected or unresolvable path
@@ -695,7 +758,7 @@ def run_cases(ctx, falcon, testing, model, configs, one, cases, listing, files_w
                           key='not-404-%s' % status)
         # (2c) binding: 400 only for a malformed date / range on a file that was really opened, and then always
         served_real = bool(opened) and opened[-1] in listing
-        bad_date = isinstance(ims, str)
+        bad_date = ims_class(ims) == ('bad',)
         if status == 400 and not (served_real and (bad_date or rh == [1])):
             ctx.violation('not-404', dict(detail, what='400 although no file is served or no header is malformed'),
                           key='bad-400')
@@ -712,10 +775,10 @@ def run_cases(ctx, falcon, testing, model, configs, one, cases, listing, files_w
         if status == 304 and body:
             ctx.violation('range-clause-violated', dict(detail, what='304 with a body'), key='304-body')
         # the date is evaluated before the range: a not-modified file is a 304 even with a malformed Range
-        if status in (200, 206, 416, 304, 400) and opened and opened[-1] in listing and not isinstance(ims, str):
+        if status in (200, 206, 416, 304, 400) and opened and opened[-1] in listing and not bad_date:
             ent = listing[opened[-1]]
             # judged on the REAL modification time (st_mtime_ns), not on what the code made of it
-            nm_q.append([8, ent[3], 10 ** 9, ([] if not isinstance(ims, int) else [ims])])
+            nm_q.append([8, ent[3], 10 ** 9, ([] if ims_class(ims) is None else [ims_class(ims)[1]])])
             nm_meta.append((dict(detail, st_mtime_ns=ent[3],
                                  float_mtime_rounds_up=(ent[4][0] // ent[4][1] > ent[1])), status, hd))
     verdicts = model.run_many(contain_q)
